@@ -346,6 +346,11 @@ class Executor:
         if isinstance(n, ast.Subscript):
             v = self.expr(n.value, sc)
             s = n.slice
+            if is_scalar(v) and not isinstance(s, (ast.Constant, ast.Slice, ast.Tuple)):
+                m = self.expr(s, sc)
+                if isinstance(m, Sc) and m.ty == "B":
+                    return v          # componentwise view of x[mask] (only meaningful inside .at[mask].set(...))
+                fail(n, "unsupported subscript of a scalar")
             if isinstance(v, (tuple, list)) and isinstance(s, ast.Constant) and isinstance(s.value, int):
                 return v[s.value]
             if isinstance(v, Static) and isinstance(v.v, tuple) and v.v and v.v[0] == "len" and isinstance(s, ast.Constant) and s.value == 0:
@@ -418,6 +423,9 @@ class Executor:
             leaf = self.expr(f.value.value.value, sc)
             idx = self.expr(f.value.slice, sc)
             val = self.expr(n.args[0], sc)
+            if is_scalar(leaf) and isinstance(idx, Sc) and idx.ty == "B" and is_scalar(val):
+                # componentwise view of x.at[mask].set(v[mask]): where(mask, v, x)
+                return self.select(idx, val, leaf, n)
             if not (isinstance(leaf, Vec) and is_scalar(idx) and is_scalar(val)):
                 fail(n, "unsupported indexed update")
             i = to_sc(idx, "Z", n)
@@ -524,8 +532,8 @@ class Executor:
         for i, s in enumerate(stmts):
             if isinstance(s, ast.Expr) and isinstance(s.value, ast.Constant) and isinstance(s.value.value, str):
                 continue
-            if isinstance(s, ast.Pass):
-                continue
+            if isinstance(s, (ast.Pass, ast.Assert)):
+                continue          # assertions constrain the inputs (preconditions); they do not change the result
             if isinstance(s, ast.Return):
                 if s.value is None:
                     fail(s, "bare return")
@@ -816,6 +824,11 @@ BUILTIN_PRIMS = {
     "jnp.logical_or": Prim(lambda ex, n, a, k: lift(lambda x, y: ex.bbin("orb", x, y, n), a, n)),
     "jnp.logical_and": Prim(lambda ex, n, a, k: lift(lambda x, y: ex.bbin("andb", x, y, n), a, n)),
     "jnp.logical_not": Prim(lambda ex, n, a, k: lift(lambda x: ex.bnot(x, n), a, n)),
+    "jnp.ones_like": Prim(lambda ex, n, a, k: Num(1) if len(a) == 1 and is_scalar(a[0]) else fail(n, "ones_like of a non-scalar")),
+    "jnp.zeros_like": Prim(lambda ex, n, a, k: Num(0) if len(a) == 1 and is_scalar(a[0]) else fail(n, "zeros_like of a non-scalar")),
+    "jnp.broadcast_to": Prim(lambda ex, n, a, k: a[0] if len(a) == 2 and not k else fail(n, "broadcast_to form")),
+    "jnp.isinf": Prim(lambda ex, n, a, k: Sc("B", "false") if len(a) == 1 and is_scalar(a[0]) else fail(n, "isinf of a non-scalar")),
+    "jnp.all": Prim(lambda ex, n, a, k: a[0]),
     "jnp.pi": Sc("R", "PI"), "float": Static("float"), "int": Static("int"), "bool": Static("bool"),
 }
 
